@@ -153,6 +153,8 @@ class LOC(dns.rdata.Rdata):
         _check_coordinate_list(longitude, -180, 180)
         self.longitude = tuple(longitude)  # pyright: ignore
         self.altitude = float(altitude)
+        if self.altitude < -10000000.0 or self.altitude > 4284967295.0:
+            raise ValueError("altitude out of range")
         self.size = float(size)
         self.horizontal_precision = float(hprec)
         self.vertical_precision = float(vprec)
